@@ -27,6 +27,7 @@ import PygProofs.Lemmas.TableAbsHeap
 import PygProofs.Lemmas.TableCall
 import PygProofs.Lemmas.TableMaskPlain
 import PygProofs.Lemmas.TableRagged
+import PygProofs.Lemmas.TableAlias
 
 namespace Pyg.Props.C01
 open Pyg Table Abs
@@ -1825,5 +1826,202 @@ example : lens (([[.int 1, .int 2, .int 3], [.int 3], [.int 7, .int 8, .int 9]] 
 example : construct (.rows [[.int 1, .int 2, .int 3], [.int 3], [.int 7, .int 8, .int 9]]) (some ["a"]) [] =
     some (.ok [("a", [.int 3, .int 3, .int 9])]) := by rfl
 example : construct (.rows [[.int 1, .int 2, .int 3], [.int 3, .int 4]]) (some ["a"]) [] = some (.error .value) := by rfl
+
+/-! ### review round 2 (3): aliasing — handles as pointers (PygModel/TableAlias.lean)
+
+`frame_step` is about a heap of VALUES: `d + None` and `dictable.concat([d])` only report `Out.alias`, the
+alias is never bound, so no history of `step` mutates a table through a second name.  `rstep` runs `step`
+on a store of cells behind a pointer table; `bindAlias dst h` binds a second handle to the same cell. -/
+
+/-- cells: the only operations that write an EXISTING cell are `setitem / delitem / update`, and they write
+the cell of their handle (`ROp.writesCell`); every other cell is as before.  Table-producing operations
+write a fresh cell (index `cells.length`), queries and `bindAlias` none. -/
+theorem rframe_cells (s : RefHeap) (rop : ROp) (c : Nat) (hc : c < s.cells.length)
+    (hw : rop.writesCell s ≠ some c) : (rstep s rop).1.cells[c]? = s.cells[c]? := by
+  cases rop with
+  | bindAlias dst h => simp only [rstep]; split <;> rfl
+  | op o =>
+    have hcells : (rstep s (.op o)).1.cells = (step s.cells (o.mapHandles s.cellOf s.cells.length)).1 := rfl
+    rw [hcells]
+    apply frame_step _ _ c hc
+    rw [Op.writes_mapHandles]
+    cases hd : o.dst? with
+    | some d => simp only [ne_eq, Option.some.injEq]; omega
+    | none =>
+      simp only [ROp.writesCell] at hw
+      cases hi : o.inplace? with
+      | none => simp
+      | some h =>
+        rw [hi] at hw
+        simp only at hw
+        simp only [Option.map_some, ne_eq, Option.some.injEq, RefHeap.cellOf]
+        cases hp : s.ptr[h]? with
+        | none => simp only [Option.getD_none]; omega
+        | some c' =>
+          rw [hp] at hw
+          simpa using hw
+
+/-- pointers: only the destination handle of the operation is (re)bound -/
+theorem rframe_ptr (s : RefHeap) (rop : ROp) (i : Nat) (hi : i < s.ptr.length) (hreb : rop.rebinds ≠ some i) :
+    (rstep s rop).1.ptr[i]? = s.ptr[i]? := by
+  cases rop with
+  | bindAlias dst h =>
+    simp only [ROp.rebinds, ne_eq, Option.some.injEq] at hreb
+    simp only [rstep]
+    split
+    · exact RefHeap.bindPtr_getElem?_ne _ _ _ _ hi hreb
+    · rfl
+  | op o =>
+    simp only [ROp.rebinds] at hreb
+    simp only [rstep]
+    split
+    · rename_i d _ hd _
+      rw [hd] at hreb
+      exact RefHeap.bindPtr_getElem?_ne _ _ _ _ hi (by simpa using hreb)
+    · rfl
+
+/-- **frame for the reference heap**: after ANY operation, a handle that read table `t`, is not the
+(re)bound destination, and whose cell is not the cell assigned in place by `setitem / delitem / update`,
+still reads `t`.  (For the value heap this was `frame_step`; here two handles may share a cell and the
+hypothesis is about the CELL written, not the handle named in the operation.) -/
+theorem rframe_step (s : RefHeap) (rop : ROp) (i : Nat) (t : Table) (hg : s.get i = some t)
+    (hreb : rop.rebinds ≠ some i) (hw : rop.writesCell s ≠ s.ptr[i]?) :
+    (rstep s rop).1.get i = some t := by
+  obtain ⟨c, hp, hcell⟩ := RefHeap.get_eq_some hg
+  have hi : i < s.ptr.length := (List.getElem?_eq_some_iff.1 hp).1
+  have hc : c < s.cells.length := (List.getElem?_eq_some_iff.1 hcell).1
+  rw [hp] at hw
+  have h1 := rframe_ptr s rop i hi hreb
+  rw [hp] at h1
+  rw [RefHeap.get_of_ptr h1, rframe_cells s rop c hc hw, hcell]
+
+/-- operations that return a new table never alter what ANY other handle reads — aliases of the operands
+included: the result goes to a fresh cell -/
+theorem rframe_producing (s : RefHeap) (o : Op) (hin : o.inplace? = Option.none) (i : Nat) (t : Table)
+    (hg : s.get i = some t) (hd : o.dst? ≠ some i) : (rstep s (.op o)).1.get i = some t := by
+  apply rframe_step s (.op o) i t hg hd
+  obtain ⟨c, hp, _⟩ := RefHeap.get_eq_some hg
+  simp [ROp.writesCell, hin, hp]
+
+/-- **an alias shares its object**: after `dst = h + None` (`bindAlias dst h`; `dst` an existing handle or
+the next new one) both handles point to the same cell and read the same table, and an assignment
+`dst[k] = v` that succeeds on that table is seen through `h` as well (real code: `e = d + None;
+e['z'] = 5` changes `d`).  A rejected assignment changes neither. -/
+theorem ralias_shared (s : RefHeap) (dst h : Nat) (t : Table) (hg : s.get h = some t)
+    (hd : dst ≤ s.ptr.length) (k : String) (v : ColVal) :
+    let s1 := (rstep s (.bindAlias dst h)).1
+    let s2 := (rstep s1 (.op (.setitem dst k v))).1
+    s1.ptr[dst]? = s.ptr[h]? ∧ s1.ptr[h]? = s.ptr[h]? ∧ s1.get dst = some t ∧ s1.get h = some t ∧
+    (∀ t', t.setitem k v = .ok t' → s2.get dst = some t' ∧ s2.get h = some t') ∧
+    (∀ e, t.setitem k v = .error e → s2.get dst = some t ∧ s2.get h = some t) := by
+  obtain ⟨c, hp, hcell⟩ := RefHeap.get_eq_some hg
+  have hh : h < s.ptr.length := (List.getElem?_eq_some_iff.1 hp).1
+  have hc : c < s.cells.length := (List.getElem?_eq_some_iff.1 hcell).1
+  have hs1 : (rstep s (.bindAlias dst h)).1 = ⟨RefHeap.bindPtr s.ptr dst c, s.cells⟩ := by
+    simp only [rstep, hp]
+  have hpd : (RefHeap.bindPtr s.ptr dst c)[dst]? = some c := RefHeap.bindPtr_getElem?_self _ _ _ hd
+  have hph : (RefHeap.bindPtr s.ptr dst c)[h]? = some c := by
+    by_cases hdh : dst = h
+    · rw [← hdh]; exact hpd
+    · rw [RefHeap.bindPtr_getElem?_ne _ _ _ _ hh hdh, hp]
+  have hcellOf : RefHeap.cellOf ⟨RefHeap.bindPtr s.ptr dst c, s.cells⟩ dst = c := by
+    simp [RefHeap.cellOf, hpd]
+  intro s1 s2
+  have e1 : s1 = ⟨RefHeap.bindPtr s.ptr dst c, s.cells⟩ := hs1
+  have e2 : s2 = (rstep ⟨RefHeap.bindPtr s.ptr dst c, s.cells⟩ (.op (.setitem dst k v))).1 := by
+    show (rstep s1 _).1 = _
+    rw [e1]
+  refine ⟨by rw [e1, hp]; exact hpd, by rw [e1, hp]; exact hph, ?_, ?_, ?_, ?_⟩
+  · rw [e1, RefHeap.get_of_ptr hpd]; exact hcell
+  · rw [e1, RefHeap.get_of_ptr hph]; exact hcell
+  · intro t' ht'
+    have : s2 = ⟨RefHeap.bindPtr s.ptr dst c, s.cells.set c t'⟩ := by
+      rw [e2]
+      simp only [rstep, Op.mapHandles, Op.dst?, Op.aliasOf, hcellOf, step, hcell, ht']
+    rw [this]
+    constructor
+    · rw [RefHeap.get_of_ptr hpd]; simp [hc]
+    · rw [RefHeap.get_of_ptr hph]; simp [hc]
+  · intro e he
+    have : s2 = ⟨RefHeap.bindPtr s.ptr dst c, s.cells⟩ := by
+      rw [e2]
+      simp only [rstep, Op.mapHandles, Op.dst?, Op.aliasOf, hcellOf, step, hcell, he]
+    rw [this]
+    exact ⟨by rw [RefHeap.get_of_ptr hpd]; exact hcell, by rw [RefHeap.get_of_ptr hph]; exact hcell⟩
+
+/-- aliases stay aliases: two handles bound to one cell are still bound to one cell after any operation that
+rebinds neither -/
+theorem ralias_stays (s : RefHeap) (rop : ROp) (a b : Nat) (ha : a < s.ptr.length) (hb : b < s.ptr.length)
+    (hab : s.ptr[a]? = s.ptr[b]?) (hra : rop.rebinds ≠ some a) (hrb : rop.rebinds ≠ some b) :
+    (rstep s rop).1.ptr[a]? = (rstep s rop).1.ptr[b]? ∧ (rstep s rop).1.get a = (rstep s rop).1.get b := by
+  have h : (rstep s rop).1.ptr[a]? = (rstep s rop).1.ptr[b]? := by
+    rw [rframe_ptr s rop a ha hra, rframe_ptr s rop b hb hrb, hab]
+  exact ⟨h, by simp only [RefHeap.get, h]⟩
+
+/-- **all cells stay rectangular** (`rect_step` lifted to the reference heap) -/
+theorem rrect_step (s : RefHeap) (rop : ROp) (hs : HeapRect s.cells) : HeapRect (rstep s rop).1.cells := by
+  cases rop with
+  | bindAlias dst h => simp only [rstep]; split <;> exact hs
+  | op o => exact rect_step s.cells _ hs
+
+/-- every handle keeps pointing to an existing cell -/
+theorem rwf_step (s : RefHeap) (rop : ROp) (hs : s.WF) : (rstep s rop).1.WF := by
+  cases rop with
+  | bindAlias dst h =>
+    simp only [rstep]
+    split
+    · rename_i c hc
+      intro x hx
+      rcases RefHeap.mem_bindPtr hx with hx | rfl
+      · exact hs x hx
+      · exact hs x (List.mem_of_getElem? hc)
+    · exact hs
+  | op o =>
+    have hge := step_length_ge s.cells (o.mapHandles s.cellOf s.cells.length)
+    intro x hx
+    simp only [rstep] at hx ⊢
+    split at hx
+    · rename_i _ _ d hd hunit
+      have hfresh := step_unit_fresh s.cells o d hd s.cellOf hunit
+      rcases RefHeap.mem_bindPtr hx with hx | rfl
+      · exact Nat.lt_of_lt_of_le (hs x hx) hge
+      · omega
+    · exact Nat.lt_of_lt_of_le (hs x hx) hge
+
+/-- after any history from the empty reference heap: all cells rectangular, all pointers valid -/
+theorem rrect_run (ops : List ROp) (s : RefHeap) (hs : HeapRect s.cells) (hw : s.WF) :
+    HeapRect (rrun s ops).cells ∧ (rrun s ops).WF := by
+  induction ops generalizing s with
+  | nil => exact ⟨hs, hw⟩
+  | cons op ops ih => exact ih _ (rrect_step s op hs) (rwf_step s op hw)
+
+theorem rrect_run_empty (ops : List ROp) : HeapRect (rrun .empty ops).cells ∧ (rrun .empty ops).WF :=
+  rrect_run ops .empty HeapRect.nil (by intro c hc; cases hc)
+
+/-- the history `d = dictable(a=[1,2]); e = d + None; e['z'] = 5`: `d` has the column `z` -/
+example : (rrun .empty [.op (.new 0 .none Option.none [("a", .many [.int 1, .int 2])]), .bindAlias 1 0,
+      .op (.setitem 1 "z" (.one (.int 5)))]).view =
+    [some [("a", [.int 1, .int 2]), ("z", [.int 5, .int 5])],
+     some [("a", [.int 1, .int 2]), ("z", [.int 5, .int 5])]] := by decide
+/-- with `e = d.copy()` instead, `d` is untouched; and `d = d[mask]` rebinds `d` to a fresh object while the
+alias `e` keeps the old one -/
+example : (rrun .empty [.op (.new 0 .none Option.none [("a", .many [.int 1, .int 2])]), .op (.copy 1 0),
+      .op (.setitem 1 "z" (.one (.int 5))), .bindAlias 2 0, .op (.mask 0 0 [true, false])]).view =
+    [some [("a", [.int 1])], some [("a", [.int 1, .int 2]), ("z", [.int 5, .int 5])],
+     some [("a", [.int 1, .int 2])]] := by decide
+/-- `d + None` and `concat([d])` report the handle (not the cell) as alias -/
+example : (rstep ⟨[1, 0], [[("a", [.int 1])], []]⟩ (.op (.addnone 0))).2 = .alias 0 ∧
+    (rstep ⟨[1, 0], [[("a", [.int 1])], []]⟩ (.op (.concat 5 [1]))).2 = .alias 1 := ⟨rfl, rfl⟩
+/-- the hypotheses of `ralias_shared` / `rframe_step` on a two-cell heap with an alias -/
+def rheap0 : RefHeap := ⟨[0, 1, 0], [tbl, [("q", [.int 1])]]⟩
+example : rheap0.get 0 = some tbl ∧ (2 : Nat) ≤ rheap0.ptr.length ∧ rheap0.WF ∧ HeapRect rheap0.cells := by
+  refine ⟨rfl, by decide, by decide, ?_⟩
+  intro t ht
+  simp [rheap0] at ht
+  rcases ht with rfl | rfl
+  · exact ⟨3, by decide⟩
+  · exact ⟨1, by decide⟩
+example : rheap0.get 1 = some [("q", [.int 1])] ∧ (ROp.op (.setitem 2 "c" (.one .none))).rebinds ≠ some 1 ∧
+    (ROp.op (.setitem 2 "c" (.one .none))).writesCell rheap0 ≠ rheap0.ptr[1]? := by decide
 
 end Pyg.Props.C01
